@@ -20,6 +20,7 @@
 #include <kernel/assembly/interpolator.hpp>
 #include <kernel/analytic/function.hpp>
 #include <kernel/trafo/inverse_mapping.hpp>
+#include <kernel/cubature/dynamic_factory.hpp>
 #include <cstdio>
 #include <cstring>
 #include <type_traits>
@@ -595,6 +596,72 @@ namespace c15
     int poison = int(c.idx());
     if(mask < 2 || mask > 126 || (mask & 1)) { o << "UNSUPPORTED-MASK"; return; }
     TrCfg<Shape_, 2>::go(cx, cell, mask, poison, p, o);
+  }
+
+  // volq  ->  W ncells { sum_q w_q * jac_det(x_q) }* : the Jacobian determinant integrated over the reference cell with a real
+  // FEAT cubature rule of sufficient degree whose points are rational (hypercubes: tensor Simpson rule, exact for
+  // coordinate degree 3 >= degree of det J; simplices: barycentre rule, det J is constant) and the real trafo evaluator
+  template<typename Shape_>
+  inline void op_volq(Ctx<Shape_>& cx, Cur&, std::ostream& o)
+  {
+    constexpr int dim = Shape_::dimension;
+    typedef typename Ctx<Shape_>::TrafoType TrafoType;
+    typedef typename TrafoType::template Evaluator<Shape_, Q>::Type TE;
+    typedef typename TE::template ConfigTraits<TrafoTags::jac_det>::EvalDataType TD;
+    Cubature::Rule<Shape_, Q, Q, Tiny::Vector<Q, dim>> rule;
+    if(!Cubature::DynamicFactory::create(rule, String(IsSimplex<Shape_>::value ? "barycentre" : "simpson")))
+    { o << "NO-RULE"; return; }
+    TE te(*cx.trafo);
+    Index nc = cx.mesh->get_num_entities(dim);
+    o << "W " << nc;
+    for(Index cell = 0; cell < nc; ++cell)
+    {
+      te.prepare(cell);
+      Q s(0);
+      for(int q = 0; q < rule.get_num_points(); ++q)
+      {
+        TD td;
+        te(td, rule.get_point(q));
+        s += rule.get_weight(q) * td.jac_det;
+      }
+      o << " " << s;
+      te.finish();
+    }
+  }
+
+  // newton <cell> <pt>  (double precision)  ->  N <converged> <dom_point> : InverseMapping::unmap_point_by_newton applied to
+  // img = map_point(cell, pt): the Newton iteration of the inverse mapping on one given cell
+  template<typename Shape_>
+  inline void op_newton(const MeshIn& in, Cur& c, std::ostream& o)
+  {
+    constexpr int dim = Shape_::dimension;
+    typedef Geometry::ConformalMesh<Shape_, dim, double> MeshD;
+    typedef Trafo::Standard::Mapping<MeshD> TrafoD;
+    Index ne[dim + 1];
+    for(int i = 0; i <= dim; ++i) ne[i] = Index(in.num[i]);
+    MeshD mesh(ne);
+    auto& vs = mesh.get_vertex_set();
+    for(std::size_t i = 0; i < in.num[0]; ++i)
+      for(int k = 0; k < dim; ++k)
+        vs[Index(i)][k] = double(in.coords[i * dim + k]);
+    FillD<MeshD, dim>::go(mesh, in);
+    mesh.fill_neighbors();
+    TrafoD trafo(mesh);
+    Index cell = Index(c.idx());
+    typedef typename TrafoD::template Evaluator<Shape_, double>::Type TE;
+    typename TE::DomainPointType pt;
+    for(int k = 0; k < dim; ++k) pt[k] = double(rq(c));
+    TE te(trafo);
+    te.prepare(cell);
+    typename TE::ImagePointType img;
+    te.map_point(img, pt);
+    te.finish();
+    Trafo::InverseMapping<TrafoD, double> inv(trafo);
+    typename Trafo::InverseMapping<TrafoD, double>::DomainPointType dp;
+    bool conv = inv.unmap_point_by_newton(dp, img, cell);
+    o << "N " << int(conv);
+    char buf[64];
+    for(int a = 0; a < dim; ++a) { std::snprintf(buf, sizeof(buf), "%.17g", dp[a]); o << " " << buf; }
   }
 
   // per-shape entry points (defined in shape_*.cpp so that the shapes compile in parallel)
